@@ -249,51 +249,69 @@ fn u_bind_safe() {
 }
 
 // ---- U-BIND (C04): positional binding and the call-time scope chain -----------------------------------
+// Split into three small harnesses (a single one with every collision at once exceeded 30 minutes: each
+// HashMap operation on String keys is expensive for CBMC).
 fn hv(i: u32) -> Value { Value::Number(1000.0 + i as f64) }
 
-#[kani::proof]
-#[kani::unwind(7)]
-#[kani::stub(alloc::fmt::format, crate::verif_common::fmt_stub)]
-#[kani::stub(std::hash::RandomState::new, crate::verif_common::rs_stub)]
-#[kani::stub(std::time::Instant::now, crate::verif_common::instant_stub)]
-#[kani::stub(crate::functions::BuiltInFunction::call, probe_builtin)]
-#[kani::stub(crate::expressions::evaluate_ast, probe_eval)]
-#[kani::stub(crate::functions::FunctionDef::get_name, name_stub)]
-fn u_bind_positional() {
+macro_rules! call_harness {
+    ($name:ident, $body:ident, $unwind:expr) => {
+        #[kani::proof]
+        #[kani::unwind($unwind)]
+        #[kani::stub(alloc::fmt::format, crate::verif_common::fmt_stub)]
+        #[kani::stub(std::hash::RandomState::new, crate::verif_common::rs_stub)]
+        #[kani::stub(std::time::Instant::now, crate::verif_common::instant_stub)]
+        #[kani::stub(crate::functions::BuiltInFunction::call, probe_builtin)]
+        #[kani::stub(crate::expressions::evaluate_ast, probe_eval)]
+        #[kani::stub(crate::functions::FunctionDef::get_name, name_stub)]
+        fn $name() {
+            $body();
+        }
+    };
+}
+
+fn check_rest(got: Option<Value>, heap: &Rc<RefCell<Heap>>, a: &[Value; 4], i: usize, n: usize) {
+    match got {
+        Some(Value::List(p)) => {
+            let hb = heap.borrow();
+            match hb.get(p.index()) {
+                Some(crate::heap::HeapValue::List(items)) => {
+                    let want_len = if n > i { n - i } else { 0 };
+                    assert!(items.len() == want_len, "U-BIND#rest-parameter-collects-exactly-the-remaining-arguments");
+                    let mut j = 0;
+                    while j < items.len() { assert!(same_value(&items[j], &a[i + j]), "U-BIND#rest-parameter-keeps-argument-order"); j += 1; }
+                }
+                _ => assert!(false, "U-BIND#rest-parameter-is-a-list"),
+            }
+        }
+        _ => assert!(false, "U-BIND#rest-parameter-is-a-list"),
+    }
+}
+
+// (a) positional binding: every documented shape of <= 2 parameters x 0..=3 arguments, no other names in play
+fn bind_positional() {
     let np: usize = kani::any();
-    kani::assume(np <= 3);
-    let kinds: [u8; 3] = kani::any();
-    kani::assume(kinds[0] < 3 && kinds[1] < 3 && kinds[2] < 3);
+    kani::assume(np <= 2);
+    let kinds: [u8; 3] = [kani::any(), kani::any(), 0];
+    kani::assume(kinds[0] < 3 && kinds[1] < 3);
     kani::assume(documented_shape(&kinds, np));
     let n: usize = kani::any();
-    kani::assume(n <= 4);
-    let mut def = lambda(&kinds, np);
+    kani::assume(n <= 3);
+    let def = lambda(&kinds, np);
     kani::assume(def.get_arity().can_accept(n));
-    // caller environment: binds p0 (collides with the first parameter), c, g and inputs
-    let mut caller = HashMap::new();
-    caller.insert("p0".to_string(), hv(0));
-    caller.insert("c".to_string(), hv(1));
-    caller.insert("g".to_string(), hv(2));
-    caller.insert("inputs".to_string(), hv(3));
-    let env = Rc::new(Environment::with_bindings(caller));
-    // captured scope: binds p1 (collides with the second parameter) and c (collides with the caller's c)
-    let mut cap = HashMap::new();
-    cap.insert("p1".to_string(), hv(4));
-    cap.insert("c".to_string(), hv(5));
-    def.scope = CapturedScope::new(cap);
-    // the function's own name collides with the third parameter
-    def.name = Some("p2".to_string());
-    let this_value = hv(6);
+    let env = Rc::new(Environment::new());
     let args = args_vec(n);
     let a: [Value; 4] = [
         if n > 0 { args[0] } else { Value::Null }, if n > 1 { args[1] } else { Value::Null },
-        if n > 2 { args[2] } else { Value::Null }, if n > 3 { args[3] } else { Value::Null } ];
+        if n > 2 { args[2] } else { Value::Null }, Value::Null ];
     let f = FunctionDef::Lambda(def);
     let heap = Rc::new(RefCell::new(Heap::verif_empty()));
-    let r = f.call(this_value, args, Rc::clone(&heap), Rc::clone(&env), 0, "");
+    let depth: usize = kani::any();
+    kani::assume(depth <= 1000);
+    let r = f.call(Value::Null, args, Rc::clone(&heap), Rc::clone(&env), depth, "");
     assert!(unsafe { EVAL_CALLS } == 1, "U-BIND#body-evaluated-exactly-once");
+    assert!(unsafe { EVAL_DEPTH } == depth + 1, "U-BIND#body-receives-depth-plus-one");
     let e = take_eval_env().unwrap();
-    let names = ["p0", "p1", "p2"];
+    let names = ["p0", "p1"];
     let mut i = 0;
     while i < np {
         let got = e.get(names[i]);
@@ -303,49 +321,71 @@ fn u_bind_positional() {
                 let want = if i < n { a[i] } else { Value::Null };
                 assert!(matches!(&got, Some(v) if same_value(v, &want)), "U-BIND#optional-parameter-is-the-argument-or-null");
             }
-            _ => {
-                // rest: a fresh list holding args[i..] in order
-                match got {
-                    Some(Value::List(p)) => {
-                        let hb = heap.borrow();
-                        let cell = hb.get(p.index());
-                        match cell {
-                            Some(crate::heap::HeapValue::List(items)) => {
-                                let want_len = if n > i { n - i } else { 0 };
-                                assert!(items.len() == want_len, "U-BIND#rest-parameter-collects-exactly-the-remaining-arguments");
-                                let mut j = 0;
-                                while j < items.len() { assert!(same_value(&items[j], &a[i + j]), "U-BIND#rest-parameter-keeps-argument-order"); j += 1; }
-                            }
-                            _ => assert!(false, "U-BIND#rest-parameter-is-a-list"),
-                        }
-                    }
-                    _ => assert!(false, "U-BIND#rest-parameter-is-a-list"),
-                }
-            }
+            _ => check_rest(got, &heap, &a, i, n),
         }
         i += 1;
     }
-    // scope chain: parameters > self name / inputs > captured scope > caller environment
-    if np < 1 { assert!(matches!(e.get("p0"), Some(v) if same_value(&v, &hv(0))), "U-BIND#unshadowed-caller-binding-visible"); }
-    if np < 2 { assert!(matches!(e.get("p1"), Some(v) if same_value(&v, &hv(4))), "U-BIND#captured-value-visible"); }
-    if np < 3 { assert!(matches!(e.get("p2"), Some(v) if same_value(&v, &this_value)), "U-BIND#self-name-bound-to-the-function-value"); }
-    assert!(matches!(e.get("c"), Some(v) if same_value(&v, &hv(5))), "U-BIND#captured-scope-shadows-the-caller-environment");
-    assert!(matches!(e.get("g"), Some(v) if same_value(&v, &hv(2))), "U-BIND#caller-environment-is-the-outermost-scope");
-    assert!(matches!(e.get("inputs"), Some(v) if same_value(&v, &hv(3))), "U-BIND#inputs-preserved");
-    // the caller's own environment is untouched by the call
-    assert!(matches!(env.get("p0"), Some(v) if same_value(&v, &hv(0))), "U-BIND#caller-binding-unchanged-by-parameter-of-same-name");
-    assert!(env.get("p1").is_none() && env.get("p2").is_none(), "U-BIND#parameters-do-not-leak-into-the-caller");
-    // result / failure of the body is the result / failure of the call
+    assert!(env.get("p0").is_none() && env.get("p1").is_none(), "U-BIND#parameters-do-not-leak-into-the-caller");
     match (&r, &eval_ret()) {
         (Ok(v), Some(w)) => assert!(same_value(v, w), "U-BIND#result-is-the-body-result"),
         (Err(_), None) => {}
         _ => assert!(false, "U-BIND#success-and-failure-propagate"),
     }
-    kani::cover!(np == 3 && kinds[2] == 2 && n == 4, "reach-rest-with-two");
+    kani::cover!(np == 2 && kinds[1] == 2 && n == 3, "reach-rest-with-two");
     kani::cover!(np == 2 && kinds[1] == 1 && n == 1, "reach-optional-defaulted");
-    std::mem::forget(r);
-    std::mem::forget(f);
-    std::mem::forget(heap);
-    std::mem::forget(env);
-    std::mem::forget(e);
+    std::mem::forget(r); std::mem::forget(f); std::mem::forget(heap); std::mem::forget(env); std::mem::forget(e);
 }
+call_harness!(u_bind_positional, bind_positional, 6);
+
+// (b) scope chain: parameters > self name / inputs > captured scope > caller environment
+fn bind_scope_chain() {
+    let mut def = lambda(&[0, 0, 0], 1);            // (p0) => ...
+    let mut caller = HashMap::new();
+    caller.insert("p0".to_string(), hv(0));          // collides with the parameter
+    caller.insert("c".to_string(), hv(1));           // collides with a captured name
+    caller.insert("g".to_string(), hv(2));           // only the caller has it
+    caller.insert("inputs".to_string(), hv(3));
+    let env = Rc::new(Environment::with_bindings(caller));
+    let mut cap = HashMap::new();
+    cap.insert("c".to_string(), hv(5));
+    def.scope = CapturedScope::new(cap);
+    def.name = Some("me".to_string());
+    let this_value = hv(6);
+    let x = any_scalar();
+    let f = FunctionDef::Lambda(def);
+    let heap = Rc::new(RefCell::new(Heap::verif_empty()));
+    let r = f.call(this_value, vec![x], Rc::clone(&heap), Rc::clone(&env), 0, "");
+    assert!(unsafe { EVAL_CALLS } == 1, "U-BIND#body-evaluated-exactly-once");
+    let e = take_eval_env().unwrap();
+    assert!(matches!(e.get("p0"), Some(v) if same_value(&v, &x)), "U-BIND#parameter-shadows-the-caller-binding-of-the-same-name");
+    assert!(matches!(e.get("c"), Some(v) if same_value(&v, &hv(5))), "U-BIND#captured-scope-shadows-the-caller-environment");
+    assert!(matches!(e.get("g"), Some(v) if same_value(&v, &hv(2))), "U-BIND#caller-environment-is-the-outermost-scope");
+    assert!(matches!(e.get("inputs"), Some(v) if same_value(&v, &hv(3))), "U-BIND#inputs-preserved");
+    assert!(matches!(e.get("me"), Some(v) if same_value(&v, &this_value)), "U-BIND#self-name-bound-to-the-function-value");
+    assert!(matches!(env.get("p0"), Some(v) if same_value(&v, &hv(0))), "U-BIND#caller-binding-unchanged-by-parameter-of-same-name");
+    assert!(env.get("me").is_none(), "U-BIND#self-name-does-not-leak-into-the-caller");
+    kani::cover!(r.is_ok(), "reach-ok");
+    std::mem::forget(r); std::mem::forget(f); std::mem::forget(heap); std::mem::forget(env); std::mem::forget(e);
+}
+call_harness!(u_bind_scope_chain, bind_scope_chain, 8);
+
+// (c) the function's own parameters shadow everything else, including its own name and captured values
+fn bind_param_wins() {
+    let mut def = lambda(&[0, 0, 0], 2);            // (p0, p1) => ...
+    let mut cap = HashMap::new();
+    cap.insert("p1".to_string(), hv(4));             // captured value named like the second parameter
+    def.scope = CapturedScope::new(cap);
+    def.name = Some("p0".to_string());               // function named like its first parameter
+    let (x, y) = (any_scalar(), any_scalar());
+    let env = Rc::new(Environment::new());
+    let f = FunctionDef::Lambda(def);
+    let heap = Rc::new(RefCell::new(Heap::verif_empty()));
+    let r = f.call(hv(6), vec![x, y], Rc::clone(&heap), Rc::clone(&env), 0, "");
+    assert!(unsafe { EVAL_CALLS } == 1, "U-BIND#body-evaluated-exactly-once");
+    let e = take_eval_env().unwrap();
+    assert!(matches!(e.get("p0"), Some(v) if same_value(&v, &x)), "U-BIND#parameter-shadows-the-function's-own-name");
+    assert!(matches!(e.get("p1"), Some(v) if same_value(&v, &y)), "U-BIND#parameter-shadows-a-captured-value-of-the-same-name");
+    kani::cover!(r.is_ok(), "reach-ok");
+    std::mem::forget(r); std::mem::forget(f); std::mem::forget(heap); std::mem::forget(env); std::mem::forget(e);
+}
+call_harness!(u_bind_param_wins, bind_param_wins, 8);
